@@ -45,7 +45,7 @@ fn val_types(ch: &mut Ch, n: usize) -> Vec<ValType> {
 pub fn apply(m: &mut Module, ch: &mut Ch, n: usize) -> Vec<String> {
     let mut log = Vec::new();
     for i in 0..n {
-        let k = ch.below(15);
+        let k = ch.below(16);
         match k {
             0 => {
                 // add a function built with the builder, export it
@@ -263,6 +263,37 @@ pub fn apply(m: &mut Module, ch: &mut Ch, n: usize) -> Vec<String> {
                         at += 1;
                     }
                     log.push(format!("insert-multi-value-block({}p,{}r)", np, nr));
+                }
+            }
+            14 => {
+                // a builder-made block whose type is [] -> R for the result
+                // list R of the function it is put into (the signature of that
+                // function's hidden entry type)
+                let locals: Vec<FunctionId> = m.funcs.iter_local().map(|(id, _)| id).collect();
+                if !locals.is_empty() {
+                    let f = *ch.pick(&locals);
+                    let results: Vec<ValType> = m.types.results(m.funcs.get(f).ty()).to_vec();
+                    if !results.is_empty() {
+                        let ty = if ch.bool() {
+                            InstrSeqType::new(&mut m.types, &[], &results)
+                        } else {
+                            match InstrSeqType::existing(&m.types, &[], &results) {
+                                Some(t) => t,
+                                None => InstrSeqType::new(&mut m.types, &[], &results),
+                            }
+                        };
+                        let lf = m.funcs.get_mut(f).kind.unwrap_local_mut();
+                        let mut b = lf.builder_mut().func_body();
+                        b.block_at(0, ty, |bb| {
+                            for t in &results {
+                                push_default(bb, *t, 11);
+                            }
+                        });
+                        for k in 0..results.len() {
+                            b.drop_at(1 + k);
+                        }
+                        log.push(format!("insert-block-typed-like-the-function-results({})", results.len()));
+                    }
                 }
             }
             _ => {
